@@ -27,13 +27,22 @@ Record LInv (b : base) : Prop := mkL {
   l_time : forall g r, aget (b_rets b) g = Some r -> lr_t r <= b_now b;
   l_upd : forall op p, aget (b_pend b) op = Some p -> p_kind p = kUpdate -> p_inner p = sHeartbeat \/ p_inner p = sTakeover;
   l_notk : forall i c, aget (b_cfgs b) i = Some c -> ic_takeover c = false;
-  l_nodup : NoDup (map fst (b_cfgs b))
+  l_nodup : NoDup (map fst (b_cfgs b));
+  (* whoever claims, and whoever has had a store call answered, is a configured instance *)
+  l_fcfg : forall i, io_flag (inst_of b i) = true -> exists c, aget (b_cfgs b) i = Some c;
+  l_rcfg : forall g r, aget (b_rets b) g = Some r -> exists c, aget (b_cfgs b) (lr_i r) = Some c
 }.
 
 Lemma LInv0 : LInv base0.
 Proof.
   constructor; cbn; try (intros; discriminate); [|constructor].
   intros k i tk [A B C|op p A|g r A]; cbn in *; discriminate.
+Qed.
+
+Lemma flagged_in_cfgs b i : (forall j, io_flag (inst_of b j) = true -> exists c, aget (b_cfgs b) j = Some c) ->
+  io_flag (inst_of b i) = true -> In (i, cfg_of b i) (b_cfgs b).
+Proof.
+  intros H F. destruct (H i F) as [c Hc]. unfold cfg_of. rewrite Hc. apply aget_In. exact Hc.
 Qed.
 
 (* a claim at a later time is a claim now *)
@@ -48,12 +57,14 @@ Proof.
 Qed.
 
 (* a claim on a key shows in the executable predicate of the environment hypothesis *)
-Lemma claim_protected b t k i tk : claim b t k i tk -> protectedb b t k = true.
+Lemma claim_protected b t k i tk :
+  (forall j, io_flag (inst_of b j) = true -> exists c, aget (b_cfgs b) j = Some c) ->
+  claim b t k i tk -> protectedb b t k = true.
 Proof.
-  intros [A B C|op p A B C D E F G|g r A B C D E F]; unfold protectedb.
+  intros Hcf [A B C|op p A B C D E F G|g r A B C D E F]; unfold protectedb.
   - apply Bool.orb_true_iff. left. apply Bool.orb_true_iff. left.
-    apply existsb_exists. unfold inst_of in B. destruct (aget (b_inst b) i) as [x|] eqn:Hx; [|cbn in B; discriminate].
-    exists (i, x). split; [apply aget_In; exact Hx|]. cbn [fst snd]. rewrite B, A, Z.eqb_refl. reflexivity.
+    apply existsb_exists. exists (i, cfg_of b i). split; [apply flagged_in_cfgs; assumption|].
+    cbn [fst snd]. rewrite B, A, Z.eqb_refl. reflexivity.
   - apply Bool.orb_true_iff. left. apply Bool.orb_true_iff. right.
     apply existsb_exists. exists (op, p). split; [apply aget_In; exact A|]. cbn [fst snd]. rewrite B, C, D, E, Z.eqb_refl. reflexivity.
   - apply Bool.orb_true_iff. right.
@@ -102,7 +113,7 @@ Lemma L_quiet b b' :
   (forall j, io_flag (inst_of b' j) = true -> io_flag (inst_of b j) = true /\ io_tok (inst_of b' j) = io_tok (inst_of b j)) ->
   LInv b -> LInv b'.
 Proof.
-  intros Hn Hp Hr Hd Hl Hv Hc Hf [L1 L2 L3 L4 L5].
+  intros Hn Hp Hr Hd Hl Hv Hc Hf [L1 L2 L3 L4 L5 L6 L7].
   constructor.
   - intros k i tk C. apply (holds_frame b).
     + unfold last_of. rewrite Hl. reflexivity.
@@ -112,6 +123,8 @@ Proof.
   - intros op p. rewrite Hp. apply L3.
   - intros i c. rewrite Hc. apply L4.
   - rewrite Hc. exact L5.
+  - intros i F. rewrite Hc. apply L6. apply (Hf i F).
+  - intros g r. rewrite Hr, Hc. apply L7.
 Qed.
 
 (* an update of one instance that leaves the claim flag and the token alone, or clears the flag *)
@@ -164,7 +177,7 @@ Lemma L_instdef b t i key H TTL vi gr mh pr tk mo hh hd bt hp :
   env_okb b (t, EInstDef i key H TTL vi gr mh pr tk mo hh hd bt hp) = true ->
   LInv (bapply b (t, EInstDef i key H TTL vi gr mh pr tk mo hh hd bt hp)).
 Proof.
-  intros [L1 L2 L3 L4 L5] Hn G E.
+  intros [L1 L2 L3 L4 L5 L6 L7] Hn G E.
   cbn in G. destruct (aget (b_cfgs b) i) eqn:Hci; [discriminate|]. clear G.
   cbn in E. apply Bool.negb_true_iff in E.
   cbn [bapply].
@@ -185,6 +198,8 @@ Proof.
   - exact L3.
   - intros j c0. rewrite Hc. destruct (i =? j); [intros X; inversion X; cbn; exact E|apply L4].
   - unfold b'. cbn. apply NoDup_aset. exact L5.
+  - intros j F. rewrite Hi in F. rewrite Hc. destruct (i =? j); [eauto|apply L6; exact F].
+  - intros g r A. change (aget (b_rets b) g = Some r) in A. rewrite Hc. destruct (i =? lr_i r); [eauto|apply (L7 g r A)].
 Qed.
 
 Lemma L_valdef b t v len sok sid stok sprio mok hasid mid hastok mtok :
@@ -192,7 +207,7 @@ Lemma L_valdef b t v len sok sid stok sprio mok hasid mid hastok mtok :
   guards0 b (t, EValDef v len sok sid stok sprio mok hasid mid hastok mtok) = [] ->
   LInv (bapply b (t, EValDef v len sok sid stok sprio mok hasid mid hastok mtok)).
 Proof.
-  intros I I2 [L1 L2 L3 L4 L5] Hn G.
+  intros I I2 [L1 L2 L3 L4 L5 L6 L7] Hn G.
   pose proof (fun x => vinfo_stable b _ x G) as Vst.
   set (b' := bapply b (t, EValDef v len sok sid stok sprio mok hasid mid hastok mtok)) in *.
   assert (Hp : b_pend b' = b_pend b) by reflexivity.
@@ -211,6 +226,8 @@ Proof.
   - exact L3.
   - exact L4.
   - exact L5.
+  - exact L6.
+  - exact L7.
 Qed.
 
 (* ---------------------------------------------------------------- a call is issued *)
@@ -229,7 +246,7 @@ Lemma L_issue b t i op kind inner root gid key val exp :
   guards0 b (t, EIssue i op kind inner root gid key val exp) = [] ->
   LInv (bapply b (t, EIssue i op kind inner root gid key val exp)).
 Proof.
-  intros [L1 L2 L3 L4 L5] Hn G.
+  intros [L1 L2 L3 L4 L5 L6 L7] Hn G.
   destruct (issue_shape b t i op kind inner root gid key val exp) as (Hp & _).
   destruct (issue_shape2 b t i op kind inner root gid key val exp) as (Ht & Hr & Hd & Hl & Hv & Hc & Hf).
   set (b' := bapply b (t, EIssue i op kind inner root gid key val exp)) in *.
@@ -254,6 +271,8 @@ Proof.
     destruct (Z.eqb_spec inner sTakeover); [right; assumption|discriminate].
   - intros j c. rewrite Hc. apply L4.
   - rewrite Hc. exact L5.
+  - intros j F. rewrite Hc. apply L6. destruct (Hf j) as [X _]. congruence.
+  - intros g r. rewrite Hr, Hc. apply L7.
 Qed.
 
 (* ---------------------------------------------------------------- a call returns *)
@@ -275,11 +294,11 @@ Proof.
 Qed.
 
 Lemma L_ret b t i op rk rev val :
-  LInv b -> b_now b <= t ->
+  Inv2 b -> LInv b -> b_now b <= t ->
   guards0 b (t, ERet i op rk rev val) = [] ->
   LInv (bapply b (t, ERet i op rk rev val)).
 Proof.
-  intros [L1 L2 L3 L4 L5] Hn G.
+  intros I2 [L1 L2 L3 L4 L5 L6 L7] Hn G.
   destruct (aget (b_pend b) op) as [p|] eqn:Hop.
   2:{ cbn in G. rewrite Hop in G. discriminate. }
   destruct (ret_shape b t i op rk rev val p Hop) as (Ht & Hp & Hd & Hl & Hv & Hc & Hr & Hf).
@@ -319,6 +338,9 @@ Proof.
   - intros op' p'. rewrite Hp. apply L3.
   - intros j c. rewrite Hc. apply L4.
   - rewrite Hc. exact L5.
+  - intros j F. rewrite Hc. apply L6. destruct (Hf j) as [X _]. congruence.
+  - intros g r. rewrite Hr, Hc. destruct (p_gid p =? g); [|apply L7].
+    intros A. inversion A. cbn [lr_i]. rewrite <- Gi. destruct (i2_key _ I2 op p Hop) as [_ X]. exact X.
 Qed.
 
 (* ---------------------------------------------------------------- the claim is raised or cleared *)
@@ -338,7 +360,7 @@ Proof.
   apply Bool.negb_false_iff in G1, G2. cbn [fst] in G2. apply Z.eqb_eq in G2.
   apply andb_prop in G1. destruct G1 as [G1 Gk]. apply andb_prop in G1. destruct G1 as [Gw Gi].
   apply Z.eqb_eq in Gk, Gi.
-  destruct IL as [L1 L2 L3 L4 L5].
+  destruct IL as [L1 L2 L3 L4 L5 L6 L7].
   match goal with |- LInv ?x => set (b' := x) end.
   assert (Hi : forall j, inst_of b' j = if i =? j then
             inst_of b i <| io_flag := true |> <| io_tok := v_stok (vinfo_of b (lr_val r)) |> <| io_acq_rev := lr_rev r |>
@@ -358,6 +380,9 @@ Proof.
   - exact L3.
   - exact L4.
   - exact L5.
+  - intros j F. rewrite Hi in F. change (b_cfgs b') with (b_cfgs b). destruct (Z.eqb_spec i j) as [E|Hne]; [|apply L6; exact F].
+    subst j. rewrite <- Gi. apply (L7 gid r Hg).
+  - exact L7.
 Qed.
 
 (* ---------------------------------------------------------------- the record expires *)
@@ -366,7 +391,7 @@ Lemma L_expire b t key rev :
   env_okb b (t, EExpire key rev) = true ->
   LInv (bapply b (t, EExpire key rev)).
 Proof.
-  intros [L1 L2 L3 L4 L5] Hn E. cbn in E. apply Bool.negb_true_iff in E.
+  intros [L1 L2 L3 L4 L5 L6 L7] Hn E. cbn in E. apply Bool.negb_true_iff in E.
   cbn [bapply]. match goal with |- LInv ?x => set (b' := x) end.
   constructor.
   - intros k j tk' C.
@@ -374,13 +399,15 @@ Proof.
     { destruct C as [A B C|op' p' A B C D E' F G'|g r' A B C D E' F];
         [apply cl_flag; auto|apply (cl_win b t k j tk' op' p'); auto|apply (cl_ret b t k j tk' g r'); auto]. }
     destruct (Z.eqb_spec key k) as [->|Hne].
-    + rewrite (claim_protected b t k j tk' C0) in E. discriminate.
+    + rewrite (claim_protected b t k j tk' L6 C0) in E. discriminate.
     + apply (holds_frame b); [|intros; reflexivity|apply L1; apply (claim_now b t); auto].
       unfold last_of, b'. cbn. apply aget_adel_other. congruence.
   - intros g r' A. pose proof (L2 g r' A). cbn. lia.
   - exact L3.
   - exact L4.
   - exact L5.
+  - exact L6.
+  - exact L7.
 Qed.
 
 (* ---------------------------------------------------------------- a call takes effect in the store *)
@@ -416,7 +443,7 @@ Lemma L_apply b t op okind rev val :
   env_okb b (t, EApply op okind rev val) = true ->
   LInv (bapply b (t, EApply op okind rev val)).
 Proof.
-  intros I I2 [L1 L2 L3 L4 L5] Hn G E.
+  intros I I2 [L1 L2 L3 L4 L5 L6 L7] Hn G E.
   destruct (aget (b_pend b) op) as [p|] eqn:Hop.
   2:{ cbn in G. rewrite Hop in G. discriminate. }
   destruct (apply_shape b t op okind rev val p Hop) as (Ht & Hr & Hd & Hv & Hc & Hi & Hp & Hl).
@@ -440,6 +467,8 @@ Proof.
   2:{ intros op' q. rewrite Hp. destruct (op =? op'); [|apply L3]. intros X. inversion X. subst q. cbn [p_kind p_inner p']. apply (L3 op p Hop). }
   2:{ intros j c. rewrite Hc. apply L4. }
   2:{ rewrite Hc. exact L5. }
+  2:{ intros j F. rewrite Hc. apply L6. unfold inst_of in *. rewrite <- Hi. exact F. }
+  2:{ intros g r. rewrite Hr, Hc. apply L7. }
   intros k j tk' C. rewrite Ht in C. apply CB in C.
   destruct (writes okind (p_kind p) && (p_key p =? k)) eqn:W.
   2:{ (* nothing written to this key *)
@@ -487,7 +516,7 @@ Proof.
       { cbn [orb] in W. exact W. }
       rewrite Kd in E. change (oOk =? oOk) with true in E. cbn [andb] in E.
       destruct C as [C|(Wt & _)].
-      * rewrite (claim_protected _ _ _ _ _ C) in E. discriminate.
+      * rewrite (claim_protected _ _ _ _ _ L6 C) in E. discriminate.
       * apply Z.eqb_eq in Kd. destruct (wonkind_cases p Wt) as [K|[K _]]; congruence.
 Qed.
 
